@@ -652,6 +652,19 @@ Proof.
       intro H. apply orb_false_iff in H as [Ht Hr]. rewrite (B Ht), (E Hr). reflexivity.
 Qed.
 
+(* gas exhaustion at any point(s) of any frame(s) is one of the trees the theorem covers *)
+Theorem cut_refines : forall body en body' en' s,
+  wf_fl eff body = true ->
+  cut eff (Frame body en false) (Frame body' en' false) ->
+  let '(si, oki) := run_impl N eff apply body' en' s in
+  let '(ss, oks) := run_spec N eff apply body' en' s in
+  oki = oks /\ s_nat si = s_nat ss /\ s_logs si = s_logs ss /\ s_evs si = s_evs ss /\
+  (forall k, s_stor si k = s_stor ss k).
+Proof.
+  intros body en body' en' s W C. apply journal_refines_spec.
+  destruct (proj1 cut_props _ _ C) as [A _]. apply (A W).
+Qed.
+
 End Proofs.
 
 (* ================================================================== *)
@@ -711,17 +724,17 @@ Proof.
     (fun l => forall m, fok_list l = true -> (In m (surv_list l) <-> kept_in_list m l))).
   - intros e m. cbn [surv]. split.
     + destruct (m_ok e) eqn:O; [|intros []]. intros [H|[]]. constructor; assumption.
-    + intro K. inversion K; subst. rewrite H0. left. reflexivity.
+    + intro K. inversion K as [e' Ho Hi | | ]; subst. rewrite Ho. left. reflexivity.
   - intros k v m. split; [intros []|intro K; inversion K].
   - intros t m. split; [intros []|intro K; inversion K].
   - intros b IH evs m. change (surv (Action b evs)) with (if fok_list b then surv_list b else []). split.
-    + destruct (fok_list b) eqn:F; [|intros []]. intro H. constructor; [exact F|]. apply IH; assumption.
-    + intro K. inversion K; subst. rewrite H0. apply IH; assumption.
+    + destruct (fok_list b) eqn:F; [|intros []]. intro H. constructor; [exact F|]. apply (proj1 (IH m eq_refl)); exact H.
+    + intro K. inversion K as [ | b' evs' Hf Hk | ]; subst. rewrite Hf. apply (proj2 (IH m Hf)); exact Hk.
   - intros b IH en c m. change (surv (Frame b en c)) with (if frame_kept b en then surv_list b else []). split.
     + destruct (frame_kept b en) eqn:F; [|intros []]. intro H. constructor; [exact F|].
-      apply IH; [|assumption]. unfold frame_kept in F. apply andb_true_iff in F as [F _]. exact F.
-    + intro K. inversion K; subst. rewrite H1. apply IH; [|assumption].
-      unfold frame_kept in H1. apply andb_true_iff in H1 as [F _]. exact F.
+      unfold frame_kept in F. apply andb_true_iff in F as [F _]. apply (proj1 (IH m F)); exact H.
+    + intro K. inversion K as [ | | b' en' c' Hf Hk ]; subst. rewrite Hf.
+      unfold frame_kept in Hf. apply andb_true_iff in Hf as [F _]. apply (proj2 (IH m F)); exact Hk.
   - intros m _. split; [intros []|intro K; inversion K].
   - intros t IHt r IHr m F. change (fok_list (ncons t r)) with (fok t && fok_list r) in F.
     apply andb_true_iff in F as [Ft Fr].
